@@ -126,6 +126,13 @@ pub fn relation_universe(base: &[RVal], nonfinite: bool) -> Vec<RVal> {
         out.push(RVal::Arr(vec![RVal::Arr(vec![n.clone()])]));
         out.push(RVal::obj(vec![("a", RVal::obj(vec![("b", n.clone())]))]));
         out.push(RVal::Arr(vec![RVal::obj(vec![("a", n.clone())]), RVal::Null]));
+        // a number followed by further siblings: walkers must step over ITS width, on each side
+        for tail in [RVal::s("w"), RVal::s("x"), RVal::u(7)] {
+            out.push(RVal::Arr(vec![n.clone(), tail.clone()]));
+            out.push(RVal::obj(vec![("a", n.clone()), ("b", tail.clone())]));
+            out.push(RVal::Arr(vec![RVal::Arr(vec![n.clone()]), tail.clone()]));
+            out.push(RVal::obj(vec![("a", RVal::obj(vec![("k", n.clone())])), ("b", tail.clone())]));
+        }
     }
     // prefix-sharing arrays / objects
     let elems = [RVal::Null, RVal::u(1), RVal::s("a"), RVal::s("ab"), RVal::s(""), RVal::Bool(true), RVal::Bool(false), RVal::arr(vec![]), RVal::obj(vec![])];
